@@ -208,11 +208,12 @@ def check_valid(assumptions, goal, lemmas=(), timeout_ms=None, want_model=True, 
                     j.abandon()
                 del jobs[f]
         cert = certificate(queries[z_fuel][0], queries[z_fuel][2]) if has_seq else None
+        orig_job = None
         cert_smt = cert or queries[z_fuel][1]
         if cert is not None:
             # re-check the quantifier-free certificate rather than the quantified query
-            if z_fuel in jobs and getattr(jobs[z_fuel], "_res", None) is None:
-                jobs[z_fuel].abandon()
+            # (the job on the quantified query keeps running: cvc5 sometimes needs a lemma instance z3 did not)
+            orig_job = jobs.get(z_fuel)
             jobs[z_fuel] = _Cvc5Job(cert_smt, cvc5_budget)
         elif z_fuel not in jobs:
             jobs[z_fuel] = _Cvc5Job(cert_smt, cvc5_budget)
@@ -220,6 +221,10 @@ def check_valid(assumptions, goal, lemmas=(), timeout_ms=None, want_model=True, 
         # z3 has a proof, but its sequence solver has returned wrong `unsat`s (DESIGN appendix B): a Seq/String query counts as
         # proved only when a cvc5 confirms it.  Portfolio: cvc5 1.0.3, then cvc5 1.0.3 --seq-array=lazy and cvc5 1.4 side by side.
         rc = getattr(j, "_res", None) or j.result(wait_s=10)
+        if orig_job is not None and orig_job is not j and (rc in ("unsat", "sat") or not has_seq) \
+                and getattr(orig_job, "_res", None) is None:
+            orig_job.abandon()
+            orig_job = None
         if rc == "unsat":
             return dict(status="proved", time_s=time.time() - t0, model=None, backend="z3+cvc5", fuel=z_fuel)
         if rc == "sat":
@@ -231,6 +236,11 @@ def check_valid(assumptions, goal, lemmas=(), timeout_ms=None, want_model=True, 
         else:
             budget = 120 if thorough else 75
             extra = [_Cvc5Job(cert_smt, budget, "cli-lazy"), _Cvc5Job(cert_smt, budget, "py")]
+            if cert is not None:
+                oj = orig_job if (orig_job is not None and getattr(orig_job, "_res", None) is None) else \
+                    _Cvc5Job(queries[z_fuel][1], budget)
+                oj.variant = "quantified"
+                extra.append(oj)
             deadline = time.time() + budget + 5
             verdict = None
             while time.time() < deadline and verdict is None:
